@@ -48,14 +48,15 @@ type c15Scenario struct {
 }
 
 // a plain name, nested names sharing a prefix, and a module 库 whose file 库.zn sits next to the directory 库/
-var c15Names = []string{"甲", "乙", "丙", "库-丁", "库-深-戊", "库"}
+// … and a module whose NAME ends in .zn (file 甲.zn.zn), next to the module 甲 (file 甲.zn)
+var c15Names = []string{"甲", "乙", "丙", "库-丁", "库-深-戊", "库", "甲.zn"}
 
 func c15Path(name string) string {
 	return "/proj/" + strings.ReplaceAll(name, "-", "/") + ".zn"
 }
 
 func c15Tag(name string) string { // identifier-safe tag of a module
-	return strings.ReplaceAll(name, "-", "")
+	return strings.ReplaceAll(strings.ReplaceAll(name, "-", ""), ".", "")
 }
 
 // ---------------------------------------------------------------- reference loader model
@@ -367,6 +368,13 @@ func runC15(t *zsim.Tape, cfg *hlib.Config) *hlib.Outcome {
 		main.Imports = append(main.Imports, c15Imp{Target: "@无此库"})
 	case 3:
 		main.Imports = append(main.Imports, c15Imp{Target: "@JSON"})
+	case 4:
+		// the FILE name written where the module name belongs: 导入“甲.zn” means 甲.zn.zn, which
+		// does not exist (unless the module of that name is part of this graph)
+		alias := sc.Mods[t.Draw(len(sc.Mods))].Name + ".zn"
+		if _, exists := byName[alias]; !exists {
+			main.Imports = append(main.Imports, c15Imp{Target: alias})
+		}
 	}
 	// faults on the disk layout
 	damage := t.Draw(10)
